@@ -6,6 +6,7 @@ import (
 	"bytes"
 	"encoding/hex"
 	"fmt"
+	"runtime"
 	"strconv"
 	"strings"
 
@@ -315,4 +316,13 @@ func b01(x bool) string {
 		return "1"
 	}
 	return "0"
+}
+
+// HeapInUse: bytes of live heap objects after two garbage collections
+func HeapInUse() uint64 {
+	runtime.GC()
+	runtime.GC()
+	var ms runtime.MemStats
+	runtime.ReadMemStats(&ms)
+	return ms.HeapAlloc
 }
